@@ -9,9 +9,10 @@
 -/
 import Jawk.Props.C06Steps
 import Jawk.Lemmas.Noise
+import Jawk.Lemmas.Noise2
 import Jawk.Props.Tables
 namespace Jawk.C06
-open Jawk Noise RunSpec Pipe
+open Jawk Noise Noise2 RunSpec Pipe
 
 /-- MAIN (what is read): the values read from the noisy stream and from its clean twin are the same values in
 the same order (rows differ in line/column only); the noisy stream yields exactly one recoverable error per garbage
@@ -111,5 +112,180 @@ theorem clean_no_reports (orc : Oracles) (c : Cfg) (specs : List StreamSpec) (wO
             (sinkBytes p.sink p.sinkLen)
     ∧ (run orc c (specs.map StreamSpec.source) wOut wErr).stderr = wErr.out :=
   Noise.clean_no_reports orc c specs wOut wErr p hok hclean hb hna hw he hh
+
+/-! ### beyond the property's quantifier (helper `Jawk/Lemmas/Noise2.lean`)
+
+The same statements for streams whose values are spelled in ANY conforming way (`Ser.Ser`, the independent
+grammar) and whose garbage may TOUCH the value before it whenever that cannot change the value's token
+(`Ser.Delimited`: after a number, no digit, `.`, `e`, `E`).  The clean twin replaces every garbage byte by a
+space (`Gap.blank`): deleting it could glue two values together (`strip_glues`: `1x2` → `12`). -/
+
+/-- **MAIN `noise_transparent2`.**  A noisy stream of conforming texts (garbage possibly touching the values) and
+its blanked twin (every garbage byte replaced by a space; same length): both hand the pipeline the same values
+with the same ordinals — the values of the items themselves, scalars dropped under `--only-objects-and-arrays`;
+the rows differ in their locations only.  The noisy stream holds exactly one recoverable error per garbage byte,
+hence at least one per malformed region; the twin none. -/
+theorem noise_transparent2 (ev : Expr → Ctx → Option JV) (c : Cfg) (cfgs : List StageCfg) (sts : List StageSt)
+    (g0 : Gap) (items : List Item) (h0 : g0.OK) (hit : ItemsOK2 items)
+    (name : Option Str) (fuel fuel' : Nat)
+    (hf : (stream2 g0 items).length + 2 ≤ fuel) (hf' : (stream2 g0 items).length + 2 ≤ fuel') (i k : Nat) :
+    let noisy := Reader.ofBytes (stream2 g0 items) name
+    let clean := Reader.ofBytes (stream2 g0.blank (blankItems items)) name
+    (ctxsOf c fuel noisy i k).map (·.input) = applyOnlyObj c (items.map (·.v))
+    ∧ (ctxsOf c fuel' clean i k).map (·.input) = applyOnlyObj c (items.map (·.v))
+    ∧ (ctxsOf c fuel noisy i k).map posFree = (ctxsOf c fuel' clean i k).map posFree
+    ∧ (perrsOf fuel noisy).length = garbageCount2 g0 items
+    ∧ noisyGaps2 g0 items ≤ garbageCount2 g0 items
+    ∧ (errsOf ev c cfgs fuel noisy i k sts).length ≤ garbageCount2 g0 items
+    ∧ ((feedBrk (processP ev cfgs) sts (ctxsOf c fuel noisy i k)).2.2 = .cont →
+        (errsOf ev c cfgs fuel noisy i k sts).length = garbageCount2 g0 items)
+    ∧ perrsOf fuel' clean = []
+    ∧ errsOf ev c cfgs fuel' clean i k sts = [] := by
+  first
+    | exact Noise2.noise_transparent2 ..
+    | (apply Noise2.noise_transparent2 <;> assumption)
+
+/-- **noise_ignore_same_output2.**  Under `ignore`, any number of sources (stdin and files), for a chain none of
+whose expressions reads line or column: the run over noisy streams of conforming texts and the run over their
+blanked twins succeed and write the same bytes; nothing goes to standard error. -/
+theorem noise_ignore_same_output2 (orc : Oracles) (c : Cfg) (specs : List StreamSpec2) (wOut wErr : Writer)
+    (p : Pipeline) (hok : ∀ s ∈ specs, s.OK) (hpol : c.onError = .ignore) (hb : build orc c = .ok p)
+    (hna : NoAbort orc p.cfgs) (hpi : ChainPosIndep (evalT orc) p.cfgs) (hw : Unbounded wOut)
+    (hh : ¬ HeaderMissing p) :
+    (run orc c (specs.map StreamSpec2.source) wOut wErr).result = .ok ()
+    ∧ (run orc c (specs.map (fun s => s.blank.source)) wOut wErr).result = .ok ()
+    ∧ (run orc c (specs.map StreamSpec2.source) wOut wErr).stdout
+        = (run orc c (specs.map (fun s => s.blank.source)) wOut wErr).stdout
+    ∧ (run orc c (specs.map StreamSpec2.source) wOut wErr).stderr = wErr.out
+    ∧ (run orc c (specs.map (fun s => s.blank.source)) wOut wErr).stderr = wErr.out := by
+  first
+    | exact Noise2.noise_ignore_same_output2 ..
+    | (apply Noise2.noise_ignore_same_output2 <;> assumption)
+
+/-- **noise_stderr_same_output2.**  Under `stderr` (standard error never failing): standard output is byte for byte
+that of the blanked run; the blanked run leaves standard error untouched, the noisy run appends one `error:` line
+per error met — nothing else goes there. -/
+theorem noise_stderr_same_output2 (orc : Oracles) (c : Cfg) (specs : List StreamSpec2) (wOut wErr : Writer)
+    (p : Pipeline) (hok : ∀ s ∈ specs, s.OK) (hpol : c.onError = .stderr) (hb : build orc c = .ok p)
+    (hna : NoAbort orc p.cfgs) (hpi : ChainPosIndep (evalT orc) p.cfgs) (hw : Unbounded wOut)
+    (he : Unbounded wErr) (hh : ¬ HeaderMissing p) :
+    (run orc c (specs.map StreamSpec2.source) wOut wErr).result = .ok ()
+    ∧ (run orc c (specs.map (fun s => s.blank.source)) wOut wErr).result = .ok ()
+    ∧ (run orc c (specs.map StreamSpec2.source) wOut wErr).stdout
+        = (run orc c (specs.map (fun s => s.blank.source)) wOut wErr).stdout
+    ∧ (run orc c (specs.map StreamSpec2.source) wOut wErr).stderr
+        = wErr.out ++ (errsOfSources (evalT orc) c p.cfgs (specs.map StreamSpec2.source) 0 p.sts).flatMap reportBytes
+    ∧ (run orc c (specs.map (fun s => s.blank.source)) wOut wErr).stderr = wErr.out := by
+  first
+    | exact Noise2.noise_stderr_same_output2 ..
+    | (apply Noise2.noise_stderr_same_output2 <;> assumption)
+
+/-- **noise_stdout_same_rows2.**  Under `stdout`: what the noisy run writes to standard output is the header and a
+sequence of chunks; the report chunks are the `error:` lines of the errors met, in order, and with them removed
+the output is byte for byte that of the blanked run.  Standard error is untouched. -/
+theorem noise_stdout_same_rows2 (orc : Oracles) (c : Cfg) (specs : List StreamSpec2) (wOut wErr : Writer)
+    (p : Pipeline) (hok : ∀ s ∈ specs, s.OK) (hpol : c.onError = .stdout) (hb : build orc c = .ok p)
+    (hna : NoAbort orc p.cfgs) (hpi : ChainPosIndep (evalT orc) p.cfgs) (hw : Unbounded wOut)
+    (hh : ¬ HeaderMissing p) :
+    ∃ ch : Chunks,
+      (run orc c (specs.map StreamSpec2.source) wOut wErr).result = .ok ()
+      ∧ (run orc c (specs.map (fun s => s.blank.source)) wOut wErr).result = .ok ()
+      ∧ (run orc c (specs.map StreamSpec2.source) wOut wErr).stdout = wOut.out ++ headerBytes p ++ ch.bytes
+      ∧ (run orc c (specs.map (fun s => s.blank.source)) wOut wErr).stdout
+          = wOut.out ++ headerBytes p ++ ch.rowPart
+      ∧ ch.reports
+          = (errsOfSources (evalT orc) c p.cfgs (specs.map StreamSpec2.source) 0 p.sts).map reportBytes
+      ∧ (run orc c (specs.map StreamSpec2.source) wOut wErr).stderr = wErr.out
+      ∧ (run orc c (specs.map (fun s => s.blank.source)) wOut wErr).stderr = wErr.out := by
+  first
+    | exact Noise2.noise_stdout_same_rows2 ..
+    | (apply Noise2.noise_stdout_same_rows2 <;> assumption)
+
+/-- **run_panic_noisy2.**  `panic` on a noisy stream of conforming texts: the rows `pre` fed to the chain are
+those of the values that precede the first gap holding garbage.  If the stream holds garbage (first garbage byte
+`b`, possibly touching the value before it) and the chain has not answered `Break` on `pre`, the run fails with
+`unexpectedChar … b`; a streaming chain has by then written exactly the header and `specRows pre`; nothing goes to
+standard error.  If the stream is clean (or the chain answered `Break` first) the run succeeds. -/
+theorem run_panic_noisy2 (orc : Oracles) (c : Cfg) (s : StreamSpec2) (hs : s.OK) (wOut wErr : Writer)
+    (p : Pipeline) (hpol : c.onError = .panic) (hb : build orc c = .ok p)
+    (hna : NoAbort orc p.cfgs) (hw : Unbounded wOut) (hh : ¬ HeaderMissing p) :
+    ∃ pre : List Ctx,
+      pre.map (·.input) = applyOnlyObj c (cleanPrefix2 s.g0 s.items) ∧
+      (∀ b, firstGarbage2 s.g0 s.items = some b →
+          (feedBrk (processP (evalT orc) p.cfgs) p.sts pre).2.2 = .cont →
+        ∃ loc,
+          (run orc c [s.source] wOut wErr).result = .error (.json (.unexpectedChar loc b valueExpected))
+          ∧ (run orc c [s.source] wOut wErr).stdout
+              = wOut.out ++ headerBytes p ++
+                (feedBrk (processP (evalT orc) p.cfgs) p.sts pre).2.1.flatMap (sinkBytes p.sink p.sinkLen)
+          ∧ (Streaming p.cfgs →
+              (run orc c [s.source] wOut wErr).stdout
+                = wOut.out ++ headerBytes p ++
+                  (specRows (evalT orc) p.cfgs p.sts pre).flatMap (sinkBytes p.sink p.sinkLen))
+          ∧ (run orc c [s.source] wOut wErr).stderr = wErr.out) ∧
+      ((firstGarbage2 s.g0 s.items = none ∨ (feedBrk (processP (evalT orc) p.cfgs) p.sts pre).2.2 = .brk) →
+        (run orc c [s.source] wOut wErr).result = .ok ()
+        ∧ (run orc c [s.source] wOut wErr).stdout
+            = wOut.out ++ headerBytes p ++
+              (specRows (evalT orc) p.cfgs p.sts pre).flatMap (sinkBytes p.sink p.sinkLen)
+        ∧ (run orc c [s.source] wOut wErr).stderr = wErr.out) := by
+  first
+    | exact Noise2.run_panic_noisy2 ..
+    | (apply Noise2.run_panic_noisy2 <;> assumption)
+
+/-- **clean_no_reports2.**  Clean streams of conforming texts (no garbage in any gap; the values need not be
+separated by white space where `Ser.Delimited` allows it, e.g. `[1]"s"{}`), on stdin or in files: under every
+`--on-error` policy there is no error to report, the run succeeds, standard output holds no report line (it is the
+header and the rows), standard error is untouched. -/
+theorem clean_no_reports2 (orc : Oracles) (c : Cfg) (specs : List StreamSpec2) (wOut wErr : Writer) (p : Pipeline)
+    (hok : ∀ s ∈ specs, s.OK) (hclean : ∀ s ∈ specs, s.Clean)
+    (hb : build orc c = .ok p) (hna : NoAbort orc p.cfgs) (hw : Unbounded wOut)
+    (he : c.onError = .stderr → Unbounded wErr) (hh : ¬ HeaderMissing p) :
+    errsOfSources (evalT orc) c p.cfgs (specs.map StreamSpec2.source) 0 p.sts = []
+    ∧ (run orc c (specs.map StreamSpec2.source) wOut wErr).result = .ok ()
+    ∧ (run orc c (specs.map StreamSpec2.source) wOut wErr).stdout
+        = wOut.out ++ headerBytes p ++
+          (specRows (evalT orc) p.cfgs p.sts (ctxsOfSources c (specs.map StreamSpec2.source) 0)).flatMap
+            (sinkBytes p.sink p.sinkLen)
+    ∧ (run orc c (specs.map StreamSpec2.source) wOut wErr).stderr = wErr.out := by
+  first
+    | exact Noise2.clean_no_reports2 ..
+    | (apply Noise2.clean_no_reports2 <;> assumption)
+
+/-- **the blanked twin is always well formed** -/
+theorem blankItems_OK (items : List Item) (h : ItemsOK2 items) : ItemsOK2 (blankItems items) := by
+  first
+    | exact Noise2.blankItems_OK ..
+    | (apply Noise2.blankItems_OK <;> assumption)
+
+/-- **strip_glues.**  DELETING the garbage of `1x2` gives `12`: one value, not two — the stripped twin is not well
+formed and is read differently, while the blanked twin `1 2` is fine.  This is why the twin of the main theorems
+replaces garbage by spaces, and why the stripped variants carry the hypothesis `ItemsOK2 (stripItems2 items)`. -/
+theorem strip_glues :
+    stream2 {} glueItems = [49, 120, 50] ∧
+    stream2 ({} : Gap).strip (stripItems2 glueItems) = [49, 50] ∧
+    stream2 ({} : Gap).blank (blankItems glueItems) = [49, 32, 50] ∧
+    ¬ ItemsOK2 (stripItems2 glueItems) ∧
+    (ctxsOf {} 5 (Reader.ofBytes [49, 120, 50] none) 0 0).map (·.input) = [.num (.pos 1), .num (.pos 2)] ∧
+    (ctxsOf {} 5 (Reader.ofBytes [49, 32, 50] none) 0 0).map (·.input) = [.num (.pos 1), .num (.pos 2)] ∧
+    (ctxsOf {} 5 (Reader.ofBytes [49, 50] none) 0 0).map (·.input) = [.num (.pos 12)] := by
+  first
+    | exact Noise2.strip_glues ..
+    | (apply Noise2.strip_glues <;> assumption)
+
+/-- **Finding (why `.`, `e`, `E` are excluded after a number).**  These three bytes are `Garbage` (they cannot
+start a value) but are NOT noise when they touch a number text:
+* `1.x` — the parser accepts `1.` as the number `1` (the point is swallowed with the number): the value survives,
+  but the two garbage bytes `.`, `x` cost ONE error, not two;
+* `1ex` — `1e` is a malformed number: the value `1` is LOST (two errors, no value). -/
+theorem number_touched_by_dot_or_e :
+    Garbage 46 = true ∧ Garbage 101 = true ∧ Garbage 69 = true ∧
+    (ctxsOf {} 5 (Reader.ofBytes [49, 46, 120] none) 0 0).map (·.input) = [.num (.pos 1)] ∧
+    (perrsOf 5 (Reader.ofBytes [49, 46, 120] none)).length = 1 ∧
+    (ctxsOf {} 5 (Reader.ofBytes [49, 101, 120] none) 0 0).map (·.input) = [] ∧
+    (perrsOf 5 (Reader.ofBytes [49, 101, 120] none)).length = 2 := by
+  first
+    | exact Noise2.number_touched_by_dot_or_e ..
+    | (apply Noise2.number_touched_by_dot_or_e <;> assumption)
 
 end Jawk.C06
